@@ -208,7 +208,10 @@ extern "C" fn cb_import(m: *const c_char, ud: *mut c_void) {
 /// callbacks of the plumbing sequences: they do not call back into the API
 extern "C" fn cb_rule_count(_r: *const YRX_RULE, ud: *mut c_void) { unsafe { *(ud as *mut usize) += 1; } }
 extern "C" fn cb_import_count(_m: *const c_char, ud: *mut c_void) { unsafe { *(ud as *mut usize) += 1; } }
-extern "C" fn cb_console(_m: *const c_char) {}
+thread_local! { static CONSOLE: std::cell::RefCell<Vec<Vec<u8>>> = const { std::cell::RefCell::new(vec![]) }; }
+extern "C" fn cb_console(m: *const c_char) {
+    if !m.is_null() { let b = unsafe { CStr::from_ptr(m).to_bytes().to_vec() }; CONSOLE.with_borrow_mut(|v| v.push(b)); }
+}
 extern "C" fn cb_slowest(_n: *const c_char, _r: *const c_char, _a: f64, _b: f64, _ud: *mut c_void) {}
 
 // ---- Rust side
